@@ -16,6 +16,116 @@ mod props;
 
 use engine::{Ctx, Tier};
 
+/// Run the check in a child process and interpret how it ended.
+///   normal exit            -> same exit code
+///   exit STALL_EXIT        -> the stalled case is re-run alone: stalls again => VIOLATION (hang), else inconclusive
+///   killed by a signal     -> re-run with case tracing, replay the last traced cases one by one: the one that
+///                             kills the process again is the VIOLATION (abort); none => inconclusive
+fn supervise(id: &str, rest: &[String], is_replay: bool) -> i32 {
+    use std::process::Command;
+    let exe = std::env::current_exe().expect("exe");
+    let scratch = format!("/verif/harness/target/supervise.{}", std::process::id());
+    let _ = std::fs::create_dir_all(&scratch);
+    let run_child = |extra: &[(&str, String)], args: &[String], timeout_s: Option<u64>| -> (Option<i32>, bool) {
+        let mut c = Command::new(&exe);
+        c.arg("check").args(args).env("VERIF_INNER", "1");
+        for (k, v) in extra {
+            c.env(k, v);
+        }
+        let mut child = c.spawn().expect("spawn worker");
+        let start = std::time::Instant::now();
+        loop {
+            match child.try_wait() {
+                Ok(Some(st)) => return (st.code(), false),
+                Ok(None) => {
+                    if let Some(t) = timeout_s {
+                        if start.elapsed().as_secs() > t {
+                            let _ = child.kill();
+                            let _ = child.wait();
+                            return (None, true);
+                        }
+                    }
+                    std::thread::sleep(std::time::Duration::from_millis(50));
+                }
+                Err(_) => return (Some(3), false),
+            }
+        }
+    };
+    let args: Vec<String> = rest.to_vec();
+    let (code, _) = run_child(&[("VERIF_STALL_DIR", scratch.clone())], &args, None);
+    let keep = |src: &str, kind: &str| -> String {
+        let dir = format!("/verif/replays{}/{id}", engine::scratch_suffix());
+        let _ = std::fs::create_dir_all(&dir);
+        let dst = format!("{dir}/{kind}-{:08x}.json", engine::hash_of(&std::fs::read_to_string(src).unwrap_or_default()) as u32);
+        let _ = std::fs::copy(src, &dst);
+        dst
+    };
+    let result = match code {
+        Some(c) if c == engine::STALL_EXIT && !is_replay => {
+            let stall = format!("{scratch}/stall.json");
+            let limit: u64 = std::env::var("VERIF_STALL_LIMIT").ok().and_then(|s| s.parse().ok()).unwrap_or(300);
+            let (c2, timed_out) = run_child(&[], &[id.to_string(), "--replay".into(), stall.clone()], Some(limit * 2));
+            if timed_out {
+                let kept = keep(&stall, "hang");
+                println!("VIOLATION property={id} replay={kept}");
+                println!("  detail=the case did not terminate within {limit} s in the campaign nor within {} s when run alone (hang)", limit * 2);
+                1
+            } else {
+                println!("INCONCLUSIVE: a case exceeded the {limit} s watchdog during the campaign but finished when run alone (exit {c2:?}); not a violation");
+                2
+            }
+        }
+        Some(c) if c == engine::STALL_EXIT => {
+            println!("REPLAY-HANG: the case did not terminate within the watchdog limit");
+            1
+        }
+        Some(c) => c,
+        None if is_replay => {
+            println!("REPLAY-ABORT: the worker process was killed by a signal while replaying this case");
+            1
+        }
+        None => {
+            println!("ABORT: the worker process was killed by a signal; re-running with case tracing to find the input");
+            let trace = format!("{scratch}/trace");
+            let _ = std::fs::create_dir_all(&trace);
+            let (c2, _) = run_child(&[("VERIF_TRACE_DIR", trace.clone()), ("VERIF_SCRATCH", "1".into())], &args, None);
+            if c2.is_some() {
+                println!("INCONCLUSIVE: the abort did not reproduce with tracing on (exit {c2:?})");
+                2
+            } else {
+                let mut found = None;
+                if let Ok(rd) = std::fs::read_dir(&trace) {
+                    for e in rd.flatten() {
+                        let f = e.path().to_string_lossy().to_string();
+                        if e.metadata().map(|m| m.len() == 0).unwrap_or(true) {
+                            continue;
+                        }
+                        let (c3, to) = run_child(&[], &[id.to_string(), "--replay".into(), f.clone()], Some(600));
+                        if c3.is_none() && !to {
+                            found = Some(f);
+                            break;
+                        }
+                    }
+                }
+                match found {
+                    Some(f) => {
+                        let kept = keep(&f, "abort");
+                        println!("VIOLATION property={id} replay={kept}");
+                        println!("  detail=the process is killed by a signal (stack overflow / allocation failure / abort) while executing this case");
+                        1
+                    }
+                    None => {
+                        println!("INCONCLUSIVE: the worker aborted twice but no single traced case reproduces it");
+                        2
+                    }
+                }
+            }
+        }
+    };
+    let _ = std::fs::remove_dir_all(&scratch);
+    result
+}
+
 fn usage() -> ! {
     eprintln!("usage: verif check <ID> [--tier quick|thorough] [--replay FILE] | verif list");
     std::process::exit(3);
@@ -170,7 +280,16 @@ fn main() {
                 eprintln!("unknown property {id}");
                 std::process::exit(3);
             };
+            // The work happens in a child process so that an abort (stack overflow, allocation
+            // failure) or a hang of the engine under test can be told apart from a clean result.
+            if std::env::var("VERIF_INNER").is_err() {
+                std::process::exit(supervise(&id, &args[2..], replay.is_some()));
+            }
             engine::install_panic_hook();
+            if let Ok(dir) = std::env::var("VERIF_STALL_DIR") {
+                let limit = std::env::var("VERIF_STALL_LIMIT").ok().and_then(|s| s.parse().ok()).unwrap_or(300);
+                engine::start_watchdog(id.clone(), limit, dir);
+            }
             let ctx = Ctx::new(&id, tier, seed, replay);
             // A panic escaping here is a harness bug (exit 3), never a violation.
             let r = std::panic::catch_unwind(std::panic::AssertUnwindSafe(|| {
